@@ -8,12 +8,66 @@ BASELINE_OFF = ("cd /repo && env -u GLUE_VERIF /venv/bin/python -m pytest -ra -q
                 "--continue-on-collection-errors")
 
 # property -> (technique, level text, level note, DESIGN.md section)
+T = "Runtime monitoring of the real code: %s Held means no divergence on the executions listed in the evidence file; nothing is claimed beyond the bounds driven."
+N = "trusted: %s; numpy semantics; single-threaded; known_findings.json lists defects already recorded (they print KNOWN-FINDING and are not re-reported)"
 CLAIMED = {
+    "C01": ("expression trees / edit-mode sequences evaluated on real states vs. numpy Boolean algebra over fresh-twin leaf masks; operand fingerprints re-checked",
+            T % "random and systematic selection trees (25 leaf kinds, 20 operator forms, 6 edit modes) are evaluated under random evaluation schedules and views; every mask is compared with the same Boolean operations applied to the masks of never-evaluated twin leaves, and every operand is re-checked for alteration.",
+            N % "leaf semantics (C04/C08/C09 decide them); copy-on-combine contract", "5/C01"),
+    "C02": ("behavioural observation of a session before save vs. after restore and after a second save/restore generation",
+            T % "generated sessions (all component kinds, coordinates, link helpers, joins, every SubsetState/Roi class with a recipe, styles, metadata, include_data on/off) are saved with the real serializer, restored, observed through the public API and compared; failing loudly at save time is an allowed outcome and is tallied.",
+            N % "the observe() projection as the meaning of 'observationally equivalent'", "5/C02"),
+    "C03": ("quiescent-point observation of readable attributes/values/derivable tables after every history step vs. independent fixpoint over the link set",
+            T % "histories of add/remove link, component, dataset (cycles, diamonds, multi-input links, delay blocks) are applied to a real DataCollection; after each step reachability, values (set of acceptable minimum-depth compositions), selection masks and link tables are compared with a small reference model.",
+            N % "the fixpoint reference model; path-distinguishing link functions", "5/C03"),
+    "C04": ("differential: result under a view vs. the same numpy view of the full-size result",
+            T % "attribute kind x selection kind x view kind cross product on generated datasets, and IndexedData vs. the parent's slice (indices reassigned), compared elementwise with shape.",
+            N % "numpy indexing as the meaning of a view", "5/C04"),
+    "C05": ("every read repeated after every mutation on the long-lived objects and on a freshly built, never-evaluated twin",
+            T % "histories interleaving reads (masks, statistics, histograms, derived values, viewer-layer histograms/profiles) with mutations (update_components, update_values_from_data, setters, move_to, ROI edits, link add/remove, IndexedData.indices), including reads from a hub listener during the change broadcast.",
+            N % "twin construction from public getters and harness-tracked values", "5/C05"),
+    "C06": ("structural invariant evaluated literally at every quiescent point of generated histories (+ icontract invariant on DataCollection)",
+            T % "all token sequences up to the length bound plus random histories over append/remove/re-append/groups/merge/clear/commands/undo/redo/save+restore on a real DataCollection.",
+            N % "set-based membership model; workload never creates ungrouped subsets", "5/C06"),
     "C07": ("recorded delivery history (unique message uids) vs. sequential reference hub + online 'no delivery while a delay block is open' trace monitor",
-            "Runtime monitoring: every enumerated hub program up to the length bound and the random re-entrant programs are executed on the real Hub; each delivery event is compared with a 70-line sequential model. Held means: no divergence on the programs listed in the evidence file.",
-            "trusted: the reference hub as specification; handlers that raise are out of scope; single-threaded", "5/C07"),
+            T % "every enumerated hub program up to the length bound and random re-entrant programs are executed on the real Hub; each delivery event is compared with a 70-line sequential model.",
+            N % "the reference hub as specification; handlers that raise are out of scope", "5/C07"),
+    "C08": ("contains()/contains3d() of real ROI objects vs. independent reference geometry outside a boundary band; equivariance under move/rotate/copy/save-restore",
+            T % "every ROI class with parameter recipes aimed at the theta special cases, thin shapes, open/closed/concave polygons, presented as scalars, n-d, broadcast and chunk-forcing point arrays.",
+            N % "reference geometry (shape-frame rotation, radius, even-odd rule cross-checked in exact rationals); band exclusion", "5/C08"),
+    "C09": ("selection produced by roi_to_subset_state evaluated on real data vs. independent geometry on plotted positions",
+            T % "1-d tables with numeric/categorical axes in all four combinations, category orders, regions swept across integer category positions; every dispatch path must be visited.",
+            N % "reference geometry shared with C08; band exclusion", "5/C09"),
+    "C10": ("differential against a naive NaN-aware reference for statistics and histograms over chunk sizes, axes, views, selections",
+            T % "Data.compute_statistic / compute_histogram, IndexedData, profile and histogram layer states are called on generated data and compared with a 40-line reference; interior-edge-coincident histogram values may fall in either neighbouring bin, totals exact.",
+            N % "the textbook reference; tolerance 1e-9 relative", "5/C10"),
+    "C11": ("masks propagated through real key joins vs. set-based key-equality model, recursion-depth monitor for cycles",
+            T % "generated tables (ints, floats, strings, dtype/width pairs, duplicates) joined in the four shapes, chains, stars and cycles; both directions, with views.",
+            N % "value equality of keys as Python/numpy == after normalisation", "5/C11"),
+    "C12": ("every registered (type, version) saver fed to the real loader and compared by observation; registry and rename-table invariants checked on the live tables",
+            T % "the saver/loader registries and PATH_PATCHES are enumerated completely; generated sessions are written with each registered version pinned and loaded by the real GlueUnSerializer.",
+            N % "C02's observe() projected on what a version can represent", "5/C12"),
+    "C13": ("behavioural snapshot before do / after do compared with snapshot after undo / after redo over generated command histories (+ stack model, icontract bound)",
+            T % "all token sequences up to the length bound and random do/undo/redo histories over AddData, RemoveData, ApplySubsetState, ApplyROI on a real session, including runs past the undo bound.",
+            N % "the snapshot projection (datasets, groups, masks, edit-subset choice, mode)", "5/C13"),
+    "C14": ("derived attribute values under every view vs. the same expression evaluated by numpy on the raw inputs; dependency closure on removal vs. graph closure",
+            T % "random expression trees, function links and parsed commands over stored/pixel/world/derived inputs, all view kinds, and add/remove/update_id histories.",
+            N % "numpy evaluation of the expression (both pow readings) as reference", "5/C14"),
+    "C15": ("world attributes, pixel<->world links and helpers vs. the coordinate object's own transformation on the dense grid",
+            T % "identity/affine (diagonal, coupled, triangular, permuted, full) and linear WCS coordinates, 1-3 dims, all views.",
+            N % "coords.pixel_to_world_values / world_to_pixel_values on the dense meshgrid", "5/C15"),
+    "C16": ("buffers from the real compute_fixed_resolution_buffer vs. brute-force nearest-pixel resampling; every request repeated with and without cache_id over request histories",
+            T % "pairs of datasets linked by affine pixel maps, value and mask requests, histories of requests sharing a cache id, and image-viewer layer states.",
+            N % "the known affine map as ground truth; .5 ties accept either neighbour", "5/C16"),
+    "C19": ("export with the real exporters, reload with the matching factory, compare components/rows/pixels",
+            T % "generated tables and images (float/int/string columns, NaN, subsets empty/proper/full) through CSV, FITS table, VO table, HDF5, gridded FITS, and sessions saved by reference.",
+            N % "format conventions for masked-out pixels are tallied, not judged", "5/C19"),
+    "C20": ("complete enumeration of small input spaces through the real helpers vs. their definitions",
+            T % "all slice pairs, chunkings, stride patterns, view shapes and categorical arrays within the stated bounds are fed to glue.utils.array helpers; exhaustive within the bound when not cut by the time cap.",
+            N % "definitions written with Python ranges / numpy indexing", "5/C20"),
 }
 NOT_YET = {}
+READY = ['C01', 'C03', 'C04', 'C05', 'C06', 'C07', 'C08', 'C09', 'C10', 'C11', 'C13', 'C14', 'C15', 'C16', 'C19', 'C20']
 
 
 def build():
@@ -21,7 +75,7 @@ def build():
     checks, na = [], []
     for p in props:
         pid = p["id"]
-        if pid in CLAIMED:
+        if pid in CLAIMED and pid in READY:
             tech, text, note, ref = CLAIMED[pid]
             checks.append({
                 "property_id": pid,
@@ -46,7 +100,7 @@ def build():
             "source_commits": [],
             "add_only": True,
         },
-        "engines": [{"name": "vf", "path": "vf/", "serves_properties": sorted(CLAIMED),
+        "engines": [{"name": "vf", "path": "vf/", "serves_properties": sorted(READY),
                      "kind_free_text": "runtime monitoring harness: sharded workload drivers, boundary recorders, reference-model oracles, known-findings classifier, evidence writer"}],
         "checks": checks,
         "not_applicable": na,
